@@ -20,6 +20,13 @@ trap 'rm -f "$WORK/go.$$.mod" "$WORK/go.$$.sum"' EXIT
 
 needs_overlay() { case "$1" in C10|C12) return 0;; *) return 1;; esac; }
 
+OVFLAGS=()
+prepare_overlay() {
+  ( cd harness && go124 build -o "$WORK/ovgen.$$" ./cmd/ovgen ) || { echo "HARNESS-ERROR: cannot build ovgen" >&2; exit 2; }
+  "$WORK/ovgen.$$" -repo "$VERIF_REPO" -shim "$VERIF_DIR/harness/zzvsync_src" -out "$WORK/ov.$$" > "$WORK/ovgen.$$.log" 2>&1 || { echo "HARNESS-ERROR: ovgen failed:" >&2; cat "$WORK/ovgen.$$.log" >&2; exit 2; }
+  OVFLAGS=(-tags ovl -overlay "$WORK/ov.$$/overlay.json")
+}
+
 build() { # $1 = binary path, $2... extra flags
   local out="$1"; shift
   ( cd harness && go124 build -modfile="$WORK/go.$$.mod" "$@" -o "$out" ./cmd/vcheck ) 2> "$WORK/build.$$.log"
@@ -34,15 +41,20 @@ build() { # $1 = binary path, $2... extra flags
 }
 
 BIN="$WORK/vcheck.$$"
-trap 'rm -f "$WORK/go.$$.mod" "$WORK/go.$$.sum" "$BIN"' EXIT
+trap 'rm -rf "$WORK/go.$$.mod" "$WORK/go.$$.sum" "$BIN" "$WORK/ov.$$" "$WORK/ovgen.$$" "$WORK/ovgen.$$.log"' EXIT
 case "$ID" in
   build)
     build "$BIN"
     exit 0;;
   replay)
-    build "$BIN"
+    if grep -q '"property": "C1[02]"' "$2" 2>/dev/null; then prepare_overlay; build "$BIN" "${OVFLAGS[@]}"; else build "$BIN"; fi
     "$BIN" replay "$2"; exit $?;;
 esac
-build "$BIN"
+if needs_overlay "$ID"; then
+  prepare_overlay
+  build "$BIN" "${OVFLAGS[@]}"
+else
+  build "$BIN"
+fi
 "$BIN" "$ID" "$TIER"
 exit $?
